@@ -2,9 +2,15 @@ use std::cell::Cell;
 #[cfg(feature = "work_steal")]
 use std::cell::UnsafeCell;
 use std::io;
+#[cfg(not(may_verif))]
 use std::sync::atomic::{AtomicUsize, Ordering};
+#[cfg(may_verif)]
+use crate::verif::atomic::{AtomicUsize, Ordering};
 use std::sync::{Arc, Once};
+#[cfg(not(may_verif))]
 use std::thread;
+#[cfg(may_verif)]
+use crate::verif::thread;
 use std::time::Duration;
 
 use crate::config::config;
